@@ -259,7 +259,28 @@ fn coord_strategy() -> impl Strategy<Value = Coord> {
 }
 
 fn locs_strategy(n: std::ops::Range<usize>) -> impl Strategy<Value = Vec<Vec<Coord>>> {
-    proptest::collection::vec(proptest::collection::vec(coord_strategy(), 4), n)
+    proptest::collection::vec(proptest::collection::vec(coord_strategy(), 6), n)
+}
+
+/// length of each location handed to the library: usually the axis count (code 255), else 0..=axis_count+2
+/// (missing trailing axes are at 0, extra coordinates are ignored)
+fn lens_strategy() -> impl Strategy<Value = Vec<u8>> {
+    proptest::collection::vec(prop_oneof![5 => Just(255u8), 4 => 0u8..=6], 4)
+}
+
+/// resolved coordinates truncated / extended to the requested length
+fn shape_loc(model: &Model, full: &[i16], spec: &[Coord], len_code: u8) -> Vec<i16> {
+    if len_code == 255 {
+        return full.to_vec();
+    }
+    let len = (len_code as usize).min(model.n_axes + 2);
+    (0..len)
+        .map(|a| match (full.get(a), spec.get(a)) {
+            (Some(v), _) => *v,
+            (None, Some(Coord::Bits(b))) => *b,
+            _ => 16384,
+        })
+        .collect()
 }
 
 fn resolve_locs(model: &Model, locs: &[Vec<Coord>]) -> Vec<Vec<i16>> {
@@ -564,13 +585,51 @@ fn check_eval(model: &Model, built: &Built, rb: &ReadBack, locs: &[Vec<i16>], st
         v.push(n - 1);
         v
     };
+    // built region -> supplied region, for the per-region scalar checks
+    let lookup: BTreeMap<&Vec<Tri>, usize> = model.regions.iter().enumerate().map(|(i, r)| (r, i)).collect();
+    let region_list = rb.store.variation_region_list().map_err(|e| fail("store-read", format!("region list: {e}")))?;
     for loc in locs {
         let scalars: Vec<Scal> = model.regions.iter().map(|r| region_scalar(r, loc)).collect();
         let coords: Vec<F2Dot14> = loc.iter().map(|b| F2Dot14::from_bits(*b)).collect();
+        stats.class(match loc.len().cmp(&model.n_axes) {
+            std::cmp::Ordering::Less if loc.is_empty() => "eval:location-empty",
+            std::cmp::Ordering::Less => "eval:location-shorter-than-axes",
+            std::cmp::Ordering::Equal => "eval:location-full",
+            std::cmp::Ordering::Greater => "eval:location-longer-than-axes",
+        });
+        // VariationRegion::compute_scalar / compute_scalar_f32 of every stored region, both against the exact scalar
+        for r in region_list.variation_regions().iter() {
+            let r = r.map_err(|e| fail("store-read", format!("region: {e}")))?;
+            let key: Vec<Tri> = r.region_axes().iter().map(|a| (a.start_coord().to_bits(), a.peak_coord().to_bits(), a.end_coord().to_bits())).collect();
+            let Some(&mi) = lookup.get(&key) else { continue };
+            let sc = scalars[mi];
+            let exact = sc.num as f64 / sc.den as f64;
+            let fixed = r.compute_scalar(&coords).to_bits();
+            // |fixed/65536 - num/den| <= frac_axes * 2^-17
+            if (fixed as i128 * sc.den * 2 - sc.num * 131072).abs() > sc.frac_axes as i128 * sc.den {
+                return Err(fail("compute_scalar", format!("region {key:?} at {loc:?} ({} axes): compute_scalar = {fixed} (16.16 raw), exact tent product {}/{} = {:.3} raw", model.n_axes, sc.num, sc.den, exact * 65536.0)));
+            }
+            let fl = r.compute_scalar_f32(&coords) as f64;
+            let ftol = exact * (2.0 * sc.frac_axes as f64) / 8_388_608.0;
+            if !((fl - exact).abs() <= ftol) {
+                return Err(fail("compute_scalar_f32", format!("region {key:?} at {loc:?} ({} axes): compute_scalar_f32 = {fl}, exact tent product {}/{} = {exact}", model.n_axes, sc.num, sc.den)));
+            }
+            // the two paths against each other
+            if (fl - fixed as f64 / 65536.0).abs() > sc.frac_axes as f64 / 131072.0 + ftol {
+                return Err(fail("scalar-paths-differ", format!("region {key:?} at {loc:?}: compute_scalar = {} but compute_scalar_f32 = {fl}", fixed as f64 / 65536.0)));
+            }
+            stats.evals(2);
+        }
         for &k in &sample {
             let (outer, inner) = built.index[k];
             let ix = DeltaSetIndex { outer, inner };
             let e = exact_delta(&model.rows[k], &scalars);
+            if loc.is_empty() && (e.int != 0 || e.frac != 0.0) {
+                // an empty location is the default instance, which has no deltas by definition; a region that the formula leaves
+                // active at the origin (every axis ignored) contradicts that, so such rows have no specified value there
+                stats.class("eval:empty-location-with-always-on-region(skipped)");
+                continue;
+            }
             let got = rb.store.compute_delta(ix, &coords).map_err(|e| fail("compute_delta-err", format!("row {k} ({outer},{inner}) at {loc:?}: {e}")))?;
             let diff = (got as i128 - e.int) as f64 - e.frac;
             // the result type is i32: sums that do not fit have no specified value
@@ -593,6 +652,10 @@ fn check_eval(model: &Model, built: &Built, rb: &ReadBack, locs: &[Vec<i16>], st
                     format!("row {k} {:?} at {loc:?}: compute_float_delta = {gf}, exact = {} (|diff| {} > bound {})", model.rows[k], e.value(), fdiff.abs(), e.tol_float),
                 ));
             }
+            // fixed-point and float paths against each other
+            if representable && (got as f64 - gf).abs() > e.tol_fixed + e.tol_float + e.value().abs() / 4_194_304.0 + 1e-9 {
+                return Err(fail("delta-paths-differ", format!("row {k} {:?} at {loc:?}: compute_delta = {got} but compute_float_delta = {gf}", model.rows[k])));
+            }
             stats.evals(2);
             if model.rows[k].iter().any(|(ri, d)| *d != 0 && scalars[*ri].num != 0 && scalars[*ri].frac_axes >= 2) {
                 stats.class("eval:region-with>=2-fractional-axes");
@@ -612,6 +675,9 @@ struct StoreCase {
     implicit: bool,
     spec: StoreSpec,
     locs: Vec<Vec<Coord>>,
+    /// length code per location (cycled), see `lens_strategy`
+    #[serde(default)]
+    lens: Vec<u8>,
 }
 
 fn small_count() -> BoxedStrategy<u32> {
@@ -619,7 +685,7 @@ fn small_count() -> BoxedStrategy<u32> {
 }
 
 fn store_strategy() -> impl Strategy<Value = StoreCase> {
-    (any::<bool>(), store_spec(1..40, small_count(), 4, 6), locs_strategy(1..5)).prop_map(|(implicit, spec, locs)| StoreCase { implicit, spec, locs })
+    (any::<bool>(), store_spec(1..40, small_count(), 4, 6), locs_strategy(1..5), lens_strategy()).prop_map(|(implicit, spec, locs, lens)| StoreCase { implicit, spec, locs, lens })
 }
 
 fn big_count(max: u32) -> BoxedStrategy<u32> {
@@ -627,7 +693,7 @@ fn big_count(max: u32) -> BoxedStrategy<u32> {
 }
 
 fn big_store_strategy(max: u32) -> impl Strategy<Value = StoreCase> {
-    (prop_oneof![3 => Just(false), 1 => Just(true)], store_spec(1..7, big_count(max), 4, 5), locs_strategy(1..3)).prop_map(|(implicit, spec, locs)| StoreCase { implicit, spec, locs })
+    (prop_oneof![3 => Just(false), 1 => Just(true)], store_spec(1..7, big_count(max), 4, 5), locs_strategy(1..3), lens_strategy()).prop_map(|(implicit, spec, locs, lens)| StoreCase { implicit, spec, locs, lens })
 }
 
 /// fixed cases with more than 65535 distinct rows of one shape (the builder must split them over subtables)
@@ -659,7 +725,7 @@ fn huge_case(i: u64) -> StoreCase {
         groups: vec![Group { shape: 0, count, base, step }, Group { shape: 0x8000_0000, count: 300, base: vec![1], step: vec![1] }],
         order: [0, 0, 3, 0, 1, 3, 2, 0, 3, 1, 3][(i as usize).min(10)],
     };
-    StoreCase { implicit: false, spec, locs: vec![vec![Coord::Bits(12288)], vec![Coord::Bits(-16384)]] }
+    StoreCase { implicit: false, spec, locs: vec![vec![Coord::Bits(12288)], vec![Coord::Bits(-16384)]], lens: vec![255, 3] }
 }
 
 fn test_store(c: &StoreCase, stats: &Stats) -> CaseResult {
@@ -675,7 +741,8 @@ fn test_store(c: &StoreCase, stats: &Stats) -> CaseResult {
     let built = build_store(&model, c.implicit)?;
     let rb = read_back(&built.bytes, &model)?;
     let info = check_retrieval(&model, &built, &rb, stats)?;
-    let locs = resolve_locs(&model, &c.locs);
+    let full = resolve_locs(&model, &c.locs);
+    let locs: Vec<Vec<i16>> = full.iter().enumerate().map(|(i, f)| shape_loc(&model, f, &c.locs[i], if c.lens.is_empty() { 255 } else { c.lens[i % c.lens.len()] })).collect();
     check_eval(&model, &built, &rb, &locs, stats)?;
 
     stats.class(if c.implicit { "mode:implicit" } else { "mode:dedup" });
@@ -1107,18 +1174,24 @@ struct LocCase {
     axes: Vec<AxisTri>,
     /// one segment map per axis, or no avar table
     avar: Option<Vec<SegMap>>,
-    /// (raw axis selector: one extra slot selects an unknown tag, value)
+    /// (raw axis selector: one extra slot selects an unknown tag, value); a setting names the selected record's tag
+    /// and thereby every record sharing that tag; the value is resolved against the selected record
     settings: Vec<(u32, UserVal)>,
+    /// tag id per axis record (cycled; empty = all distinct): records may share a tag (non-linear-interpolation layout),
+    /// each is normalised with its own min/default/max and its own segment map
+    #[serde(default)]
+    tags: Vec<u8>,
 }
 
 fn loc_strategy() -> impl Strategy<Value = LocCase> {
-    (1usize..=4).prop_flat_map(|n| {
+    (1usize..=5).prop_flat_map(|n| {
         (
             proptest::collection::vec(axis_strategy(), n),
             prop_oneof![1 => Just(None), 3 => proptest::collection::vec(segmap_strategy(), n).prop_map(Some)],
             proptest::collection::vec((any::<u32>(), userval_strategy()), 0..8),
+            prop_oneof![2 => Just(vec![]), 3 => proptest::collection::vec(0u8..3, n), 1 => proptest::collection::vec(0u8..2, n)],
         )
-            .prop_map(|(axes, avar, settings)| LocCase { axes, avar, settings })
+            .prop_map(|(axes, avar, settings, tags)| LocCase { axes, avar, settings, tags })
     })
 }
 
@@ -1154,7 +1227,12 @@ fn test_loc(c: &LocCase, stats: &Stats) -> CaseResult {
             return Err(fail("harness-invalid-segmap", format!("generated avar is not valid: {m:?}")));
         }
     }
-    let mut kit = Kit { num_glyphs: 1, upem: 1000, axes: kit_axes(&c.axes), ..Default::default() };
+    let tag_id = |i: usize| -> usize { if c.tags.is_empty() { i } else { c.tags[i % c.tags.len()] as usize } };
+    let mut kaxes = kit_axes(&c.axes);
+    for (i, a) in kaxes.iter_mut().enumerate() {
+        a.tag = axis_tag(tag_id(i));
+    }
+    let mut kit = Kit { num_glyphs: 1, upem: 1000, axes: kaxes, ..Default::default() };
     if let Some(m) = &c.avar {
         kit.extra.push((*b"avar", avar_bytes(m)));
     }
@@ -1170,11 +1248,19 @@ fn test_loc(c: &LocCase, stats: &Stats) -> CaseResult {
             stats.class("loc:unknown-tag-setting");
         } else {
             let (f, raw) = user_f32(c.axes[i], v);
-            settings.push((Tag::new(&axis_tag(i)), f));
+            settings.push((Tag::new(&axis_tag(tag_id(i))), f));
             if last[i].is_some() {
                 stats.class("loc:repeated-axis-setting");
             }
-            last[i] = Some((f, raw));
+            // documented: the last setting for a tag wins, and it applies to every record with that tag
+            for j in 0..n {
+                if tag_id(j) == tag_id(i) {
+                    last[j] = Some((f, raw));
+                    if j != i {
+                        stats.class("loc:setting-applies-to-other-record-with-same-tag");
+                    }
+                }
+            }
         }
     }
     let axes = font.axes();
@@ -1194,7 +1280,7 @@ fn test_loc(c: &LocCase, stats: &Stats) -> CaseResult {
     }
     for i in 0..n {
         let a = c.axes[i];
-        let what = |extra: String| format!("axis {i} {a:?} avar {:?} settings {settings:?}: location = {got:?}; {extra}", c.avar.as_ref().map(|m| &m[i]));
+        let what = |extra: String| format!("axis record {i} {a:?} (record tags {:?}) avar {:?} settings {settings:?}: location = {got:?}; {extra}", (0..n).map(tag_id).collect::<Vec<_>>(), c.avar.as_ref().map(|m| &m[i]));
         let Some((f, raw)) = last[i] else {
             if got[i] != 0 {
                 return Err(fail("location-omitted", what("an axis without a setting must be at 0".into())));
@@ -1249,6 +1335,9 @@ fn test_loc(c: &LocCase, stats: &Stats) -> CaseResult {
         stats.evals(1);
     }
     stats.class(if c.avar.is_some() { "loc:avar" } else { "loc:no-avar" });
+    if (0..n).any(|i| (0..i).any(|j| tag_id(i) == tag_id(j))) {
+        stats.class("loc:records-share-a-tag");
+    }
     if last.iter().flatten().count() >= 1 && c.avar.as_ref().map(|m| m.iter().any(|s| s.len() > 3)).unwrap_or(false) {
         stats.nontrivial(hash_json(c));
         if stats.want_sample() {
@@ -1569,10 +1658,10 @@ fn main() {
         1..6 row shapes (columns = region + width class: explicit 0 / i8 / i16 / i32 / boundary values, width cap per case), rows = groups (shape, count, base, step) giving duplicates, runs and all-zero rows, \
         handed over as generated / reversed / round-robin / scrambled, to VariationStoreBuilder::new or new_with_implicit_indices; store: <= 40 groups of mostly 1 row, big-store: <= 6 groups of up to 12000 (thorough 30000) rows, \
         huge-store: fixed cases of 66000..300000 distinct rows of one shape (split over 2..5 subtables; 131071 and 200000 rows in quick). Each row is read back through the remap (independent row decoder) and up to 41 rows x 1..4 locations (region start/peak/end +-1, midpoints, 0, +-1, random) go through \
-        compute_delta / compute_float_delta. Non-trivial: the built store has >= 2 subtables, or fewer regions than supplied, or fewer rows than supplied; distinct by hash of (mode, spec). \
+        compute_delta / compute_float_delta, and every stored region through compute_scalar / compute_scalar_f32; locations have the axis count or any length 0..=axes+2 (missing axes = 0, extra ignored); fixed and float paths are also compared with each other. Non-trivial: the built store has >= 2 subtables, or fewer regions than supplied, or fewer rows than supplied; distinct by hash of (mode, spec). \
         normalize: 1..3 axes (typical, integer, fractional, equalities, 1-ulp spans, one-sided spans up to the 16.16 range) x 1..23 user values (min/default/max +-2 ulp, interior, raw, huge); non-trivial: a non-degenerate axis and >= 2 values. \
         avar: 1..3 valid segment maps (0 or 3..11 points) queried at every point, +-2 ulp, between points; non-trivial: a map with > 3 points. \
-        location: Kit font with fvar (+ avar) and 0..7 settings (unknown tags, repeated axes, omitted axes, +-inf); non-trivial: a set axis under an avar map with > 3 points. \
+        location: Kit font with fvar of 1..5 axis records (tags distinct or shared by 2..5 records, each record with its own range and segment map) (+ avar) and 0..7 settings (unknown tags, repeated tags - last wins, applied to every record with the tag -, omitted axes, +-inf); non-trivial: a set axis under an avar map with > 3 points. \
         metrics: Kit font with hmtx (numberOfHMetrics in 1..=numGlyphs, numGlyphs 1..40) + hand-assembled HVAR around the builder's store in 4 modes (implicit/no maps, advance map, advance+lsb maps, implicit+lsb map; \
         hand-encoded DeltaSetIndexMap formats 0/1, entry sizes 1..4, map counts < numGlyphs), every glyph id and ids >= numGlyphs at 1..3 locations, unscaled and one ppem; non-trivial: >= 2 glyphs and some metric differs from its base value.");
     ctx.assume("exact model: rational tent scalars and sums in i128; fixed-point bound 0.5 + sum |delta| * (fractional axes) * 2^-17 (one 16.16 rounding per axis, one final rounding); float bound 2^-23 relative per rounding step");
